@@ -845,6 +845,10 @@ func (ex *Exec) retype(v Val, t types.Type) Val {
 	case SliceV:
 		if s, ok := under(t).(*types.Slice); ok {
 			x.Elem = s.Elem()
+			x.Named = nil
+			if _, isNamed := t.(*types.Named); isNamed {
+				x.Named = t
+			}
 		}
 		return x
 	case RefPtr:
